@@ -34,6 +34,20 @@ def Rule.constName : Rule → String
   | .manyBounds => "RULE_MANY_BOUNDS"
   | .emptyOr => "RULE_EMPTY_OR"
 
+/-- What the rule means, in the words of `docs/IDL_VERIFIER_SCOPE.md` (section "Rule IDs"). -/
+def Rule.docText : Rule → String
+  | .emptyNamespace => "empty namespace"
+  | .duplicateNamespace => "duplicate namespace"
+  | .missingNamespace => "missing namespace reference"
+  | .missingType => "missing type"
+  | .typeGenericArity => "type generic arity mismatch"
+  | .missingAccountSet => "missing account set"
+  | .accountSetTypeArity => "account-set type generic arity mismatch"
+  | .accountSetAccountArity => "account-set account generic arity mismatch"
+  | .missingAccount => "missing account"
+  | .manyBounds => "invalid Many bounds"
+  | .emptyOr => "empty Or"
+
 /-- The rule id string (`SFIDLnnn`) the constant has in the source (table regenerated every run). -/
 def Rule.id (r : Rule) : String :=
   match Generated.ruleConsts.lookup r.constName with
